@@ -7,3 +7,11 @@ type Invoice struct {
 	Paid   bool
 	Secret *string
 }
+
+// Review also exists in probe/models; autobind must keep taking the first package listed.
+type Review struct {
+	Stars    int
+	Text     *string
+	AuthorID string
+	Billing  bool
+}
